@@ -87,8 +87,11 @@ class Contract:
                  ghost=None, mode="prove", unroll=None, comps=None, name=None, setup=(), max_paths=None,
                  frame=None, lock=None, replay=None, timeout_ms=None, axioms=(), post_setup=(), pure_result=None, asserts=None, nonlinear=False, unreachable_ok=(),
                  region=None, sort_facts=True, feas_timeout_ms=None, named_seqs=False,
-                 fs_inv=(), fs_policy=(), fs_opts=None, call_pre=None, witnesses=None, abstract_str_order=False, label=""):
+                 fs_inv=(), fs_policy=(), fs_opts=None, call_pre=None, witnesses=None, abstract_str_order=False, label="",
+                 strict_comps=False, feas_fresh=False):
         self.key = key
+        self.feas_fresh = feas_fresh   # branch-feasibility pre-checks use a fresh solver instead of the incremental one
+        self.strict_comps = strict_comps   # execute comprehension bodies once in exec mode: their exceptions count
         self.prop = prop if isinstance(prop, (list, tuple)) else [prop]
         self.short = name or key.split(":", 1)[1]
         self.types = dict(types or {})
@@ -178,6 +181,22 @@ class Registry:
         t = TRec(name, {k: self.types.parse(v) for k, v in fields.items()}, pyclass)
         t.dictlike = dictlike
         self.types.declare(name, t)
+        return t
+
+    def union(self, name, variants, fields):
+        """tagged union of frozen dataclasses that live in one list (e.g. the ops of a plan): one record type `name`
+        with the hidden tag `_cls` (class name) and the union of all fields.  `variants` maps each class name to
+        the fields that class declares.  Constructing `Cls(...)` sets the tag and leaves the other classes' fields
+        unspecified; reading a field that the runtime class does not declare is an AttributeError (or the getattr
+        default); `isinstance` tests the tag; `==` compares the tag and the fields of that class.  No relation
+        between the tag and any `kind`-like field is assumed."""
+        fs = {"_cls": TStr}
+        fs.update({k: self.types.parse(v) for k, v in fields.items()})
+        t = TRec(name, fs)
+        t.variants = {c: list(fl) for c, fl in variants.items()}
+        self.types.declare(name, t)
+        for c in variants:
+            self.types.declare(c, t)
         return t
 
     def keyrec(self, name, fields):
@@ -476,7 +495,44 @@ class Verifier:
         t = xs.t
         f = z3.Function("str_join_" + "".join(c if c.isalnum() else "_" for c in t.name),
                         z3.StringSort(), t.sort(), z3.StringSort())
+        if t == TList(TStr):
+            self.split_join_axioms(I)
         return f(sep.e, unwrap(xs, t))
+
+    def split_join_axioms(self, I):
+        """Trusted facts about whitespace tokenisation (str.split() without separator) and str.join, added once
+        per path the first time either is used.  `str_is_token(x)` is an uninterpreted predicate read as
+        "x is non-empty and contains no whitespace character (str.isspace)".
+          T1  every element of s.split() is a token
+          T2  for a list xs (len >= 0) of tokens:  " ".join(xs).split() == xs   (same length, same elements)
+          T3  sep.join([]) == ""
+          T4  a token is a non-empty string
+        (T2 with xs == [] and T3 give "".split() == [].)  Everything else about split/join stays uninterpreted."""
+        if getattr(I.path, "_sj_axiom", False):
+            return
+        I.path._sj_axiom = True
+        t = TList(TStr)
+        split = z3.Function("str_split_ws", z3.StringSort(), t.sort())
+        join = z3.Function("str_join_" + "".join(c if c.isalnum() else "_" for c in t.name),
+                           z3.StringSort(), t.sort(), z3.StringSort())
+        tok = z3.Function("str_is_token", z3.StringSort(), z3.BoolSort())
+        s, sep = z3.Strings("sj_s sj_sep")
+        xs = z3.Const("sj_xs", t.sort())
+        i, j = z3.Ints("sj_i sj_j")
+        arr, n = t.dt.arr, t.dt.n
+        sp = z3.StringVal(" ")
+        el = z3.Select(arr(split(s)), i)
+        I.path.assume(z3.ForAll([s, i], z3.Implies(z3.And(0 <= i, i < n(split(s))), tok(el)), patterns=[el]))
+        back = split(join(sp, xs))
+        all_tok = z3.ForAll([i], z3.Implies(z3.And(0 <= i, i < n(xs)), tok(z3.Select(arr(xs), i))))
+        same = z3.ForAll([j], z3.Implies(z3.And(0 <= j, j < n(xs)), z3.Select(arr(back), j) == z3.Select(arr(xs), j)),
+                         patterns=[z3.Select(arr(back), j)])
+        I.path.assume(z3.ForAll([xs], z3.Implies(z3.And(n(xs) >= 0, all_tok), z3.And(n(back) == n(xs), same)),
+                                patterns=[join(sp, xs)]))
+        I.path.assume(z3.ForAll([sep, xs], z3.Implies(n(xs) == 0, join(sep, xs) == z3.StringVal("")), patterns=[join(sep, xs)]))
+        I.path.assume(z3.ForAll([s], z3.Implies(tok(s), z3.Length(s) > 0), patterns=[tok(s)]))
+        self.note_assumption("str.split()/' '.join: uninterpreted except (T1) elements of s.split() are tokens, (T2) ' '.join(xs).split() == xs "
+                             "for a list of tokens, (T3) sep.join([]) == '', (T4) tokens are non-empty")
 
     def split_term(self, I, s, args, kw):
         t = TList(TStr)
@@ -486,6 +542,7 @@ class Verifier:
         else:
             f = z3.Function("str_split_ws", z3.StringSort(), t.sort())
             r = t.wrap(f(s.e))
+            self.split_join_axioms(I)
         I.path.assume(r.n >= 0)
         if args:
             I.path.assume(r.n >= 1)
@@ -597,6 +654,9 @@ class Verifier:
             return VFunc("ast", name, node=node, module=m)
         if name in self.reg.consts:
             return mk_const(self.reg.consts[name])
+        from . import dyn as D
+        if name in D.SPEC_FUNCS:
+            return VFunc("builtin", name, impl=D.SPEC_FUNCS[name])
         return None
 
     def _base_class_info(self, ci, b):
@@ -698,7 +758,14 @@ class Verifier:
             m2 = frontend.load_module(rel, self.repo)
             if attr is None:
                 return VModule(name, m2)
-            return self.module_name(m2, attr, I)
+            v = self.module_name(m2, attr, I)
+            if v is None and rel.endswith("__init__.py"):
+                # `from . import submodule` / `from pkg import submodule`: the name is a module file of the package
+                for cand in (os.path.join(os.path.dirname(rel), attr + ".py"),
+                             os.path.join(os.path.dirname(rel), attr, "__init__.py")):
+                    if os.path.exists(os.path.join(self.repo, cand)):
+                        return VModule(attr, frontend.load_module(cand, self.repo))
+            return v
         return self.external(module, name)
 
     def module_attr(self, o, name, I):
@@ -915,6 +982,7 @@ class Verifier:
         self.queries = 0
         saved_to = self.timeout_ms
         saved_nl = self.nonlinear
+        self.feas_fresh = c.feas_fresh
         self.nonlinear = self.nonlinear or c.nonlinear
         self.abstract_str_order = bool(getattr(c, 'abstract_str_order', False))
         if c.timeout_ms:
